@@ -186,7 +186,7 @@ def impl_case(case):
                 text = open(p, encoding="utf-8", newline="").read()
                 files.append("%s %s N 1 J %s 0 c 0 %d X t: 0" % (enc(p), enc(text), enc("_junk"), len(text)))
                 described.append(None)
-        line = "lint %d %s" % (len(paths), " ".join(files))
+        line = "c19.lint %d %s" % (len(paths), " ".join(files))
         rel = lambda p: os.path.relpath(p, os.path.join(base, "cur"))
         return {"canon": canon(results), "line": line,
                 "results": [{"lineno": r["lineno"], "column": r["column"], "level": r["level"], "message": r["message"],
@@ -234,7 +234,7 @@ def impl_probe(spec):
     toks = [enc(path), enc(spec["text"]), "N", "1", "E", enc(ent.key), "1", "d" if spec["cls"] == "dtd" else "c",
             str(spec["span"][0]), str(spec["span"][1]), ("V %d %d" % vs) if vs is not None else "X", "t:", str(len(tuples))]
     toks += [check_tokens(t) for t in tuples]
-    line = "lint 1 " + " ".join(toks)
+    line = "c19.lint 1 " + " ".join(toks)
     el = EntityLinter([ent], _MockChecker(tuples), {})
     try:
         results = list(el.lint_entity(ent))
